@@ -24,7 +24,7 @@ RULE = ("one run = a generated document with injected record faults, delivered t
         "scheduler-chosen entry point, followed by bad API calls; every call classified; distinct = "
         "distinct (call kind, argument digest) pairs that reached gfapy")
 PROBES = ["gfapy_error", "corrupt_accepted", "validate_script", "torn_line", "budget_armed",
-          "bad_api_raised", "bad_api_returned"]
+          "bad_api_raised", "bad_api_returned", "flipped_byte_progress"]
 STUBS = ["disk (gfapy.gfa.open -> SimDisk)", "record transport"]
 ASSUMPTIONS = ["OSError from the disk seam is not a text input and is excluded (DESIGN §1.2)"]
 
@@ -335,7 +335,18 @@ def build(w, cx, op, st):
         w.disk.sync()
         install_seams(w.disk, w.clock)
         try:
-            o = cx.call("Gfa.from_file(<flipped byte at %d>)" % pos, gfapy.Gfa.from_file, "/sim/t.gfa", **kw)
+            if (op.get("torn", 1) // 4) % 2:
+                # the same file read with progress logging on (the file is then opened twice: once to count
+                # its lines, once to parse them)
+                def with_progress():
+                    gg = gfapy.Gfa(**kw)
+                    gg.enable_progress_logging(part=0.3, channel=io.StringIO())
+                    gg.read_file("/sim/t.gfa")
+                    return gg
+                st.count("probe.flipped_byte_progress")
+                o = cx.call("read_file(<flipped byte at %d>) with progress logging" % pos, with_progress)
+            else:
+                o = cx.call("Gfa.from_file(<flipped byte at %d>)" % pos, gfapy.Gfa.from_file, "/sim/t.gfa", **kw)
         finally:
             remove_seams()
         return o.value if o.ok else None
